@@ -162,14 +162,7 @@ func (node *LookupJoin) Typecheck(ctx context.Context, env physical.Environment,
 	left, leftMapping := node.left.Typecheck(ctx, env, logicalEnv)
 	right, rightMapping := node.right.Typecheck(ctx, env.WithRecordSchema(left.Schema), logicalEnv.WithRecordUniqueVariableNames(leftMapping))
 
-	// Put all mapped variables into one new map. Left mapping takes precedence.
-	outMapping := make(map[string]string, len(leftMapping)+len(rightMapping))
-	for k, v := range rightMapping {
-		outMapping[k] = v
-	}
-	for k, v := range leftMapping {
-		outMapping[k] = v
-	}
+	outMapping := mergeJoinMappings(leftMapping, rightMapping)
 
 	return physical.Node{
 		Schema: physical.Schema{
